@@ -4,6 +4,7 @@ package c02
 import (
 	"context"
 	"fmt"
+	"io"
 	"iter"
 	"sort"
 	"strings"
@@ -339,6 +340,29 @@ func checkSeq(t *core.T, items []item) {
 	pm := ps.Map()
 	dec, diag = cedar.Authorize(pm, entities, request)
 	cmp("Authorize(PolicyMap)", dec, diag)
+	// the same document read statement by statement through the streaming Decoder: all
+	// policies are decoded first and authorized afterwards
+	{
+		dm := cedar.PolicyMap{}
+		d := cedar.NewDecoder(strings.NewReader(b.doc))
+		for k := 0; ; k++ {
+			var p cedar.Policy
+			if err := d.Decode(&p); err != nil {
+				if err != io.EOF {
+					t.Fail("Decoder:error", in("Decoder"), "decodes", err.Error())
+				}
+				break
+			}
+			p.SetFilename("doc.cedar")
+			dm[cedar.PolicyID(fmt.Sprintf("policy%d", k))] = &p
+		}
+		if len(dm) != len(items) {
+			t.Fail("Decoder:policy-count", in("Decoder"), fmt.Sprint(len(items)), fmt.Sprint(len(dm)))
+		} else {
+			dec, diag = cedar.Authorize(dm, entities, request)
+			cmp("Authorize(Decoder)", dec, diag)
+		}
+	}
 	// a harness PolicyIterator: every yield order (k<=4), else identity/reversal/rotations
 	oi := orderedIter{}
 	for _, id := range b.ids {
